@@ -78,8 +78,25 @@ prop("C07", bounds=PROG_BOUNDS, outside=PROG_OUT,
                         {"nops": 2, "pre": 1}, {"nops": 3, "pre": 2}, quick_vs=(0, 2)))
 
 # ------------------------------------------------------------------ C04
+REG_LEMMAS_QUICK = [
+    H("txfile.VerifFreelistAddRegion", "AddRegion from an arbitrary free list: invariant kept, page free afterwards iff free before or in the added region", "<= 2 regions (thorough 3), ids < 2^54, counts <= 2^31",
+      quick={"params": {"regions": 2}, "timeout_ms": 5000}, thorough={"params": {"regions": 3}, "timeout_ms": 5000, "budget": "1700s"}),
+    H("txfile.VerifFreelistAllocContinuous", "AllocContinuousRegion, both orders: n continuous free pages or nothing; never a page that was not free; list invariant", "<= 2 regions (thorough 3)",
+      quick={"params": {"regions": 2}, "timeout_ms": 5000}, thorough={"params": {"regions": 3}, "timeout_ms": 5000, "budget": "1700s"}),
+    H("txfile.VerifReleaseOverflow", "releaseOverflowPages drops only free pages beyond the maximum directly below the end marker", "<= 2 regions (thorough 3)",
+      quick={"params": {"regions": 2}, "timeout_ms": 5000}, thorough={"params": {"regions": 3}, "timeout_ms": 5000, "budget": "1700s"}),
+]
+REG_LEMMAS_THOROUGH = [
+    H("txfile.VerifFreelistAllocRegions", "AllocRegionsWith, both orders: exactly n free pages, reported sorted, none both free and handed out", "<= 2 regions", tiers=("thorough",),
+      thorough={"params": {"regions": 2}, "timeout_ms": 5000, "budget": "1700s"}),
+    H("txfile.VerifFreelistRemoveRegion", "RemoveRegion of an arbitrary region: exactly the intersection is removed", "<= 2 regions", tiers=("thorough",),
+      thorough={"params": {"regions": 2}, "timeout_ms": 5000, "budget": "1700s"}),
+    H("txfile.VerifMergeRegionLists", "mergeRegionLists is the union, sorted and disjoint", "2 x <= 2 regions", tiers=("thorough",),
+      thorough={"params": {"regions": 2}, "timeout_ms": 5000, "budget": "1700s"}),
+]
+
 prop("C04", bounds=PROG_BOUNDS, outside=PROG_OUT,
-     harnesses=variants("txfile.VerifProgOwn", "every id returned by Alloc/AllocN is >= 2, not live, not freed-but-committed, not internal; ownership partition after every commit",
+     harnesses=REG_LEMMAS_QUICK + REG_LEMMAS_THOROUGH + variants("txfile.VerifProgOwn", "every id returned by Alloc/AllocN is >= 2, not live, not freed-but-committed, not internal; ownership partition after every commit",
                         {"nops": 3, "ntx": 1}, {"nops": 2, "ntx": 2}, quick_vs=(0, 1)))
 
 # ------------------------------------------------------------------ C11
@@ -87,6 +104,11 @@ prop("C11", bounds=PROG_BOUNDS, outside=PROG_OUT,
      harnesses=variants("txfile.VerifProgOwn", "allocatable + live + meta area + 2 == max pages, extent <= max, FileStats == model after every commit",
                         {"nops": 3, "ntx": 1}, {"nops": 2, "ntx": 2}, vs=(0, 1, 4), quick_vs=(0, 4)))
 
+CHECKS["C10"]["harnesses"] += [
+    H("txfile.VerifFreelistSerialize", "readFreeList(writeFreeLists(meta, data)) == (meta, data) over several 64-byte pages; chain links exactly the allocated pages; the predictor never under-estimates", "<= 2 meta + 4 data regions, 64-bit ids, 32-bit counts",
+      thorough={"params": {"meta": 3, "data": 5}, "max_paths": 200000, "budget": "1200s"}),
+    H("txfile.VerifWALSerialize", "readWAL(writeWAL(mapping)) == mapping for ids < 2^56 over several pages", "<= 4 entries", thorough={"params": {"entries": 6}}),
+]
 CHECKS["C10"]["harnesses"] += variants("txfile.VerifProgReopen", "reopened instance == running instance (free lists, markers, meta area, overwrite log, root, stats, allocatable pages), then one more symbolic transaction",
                                         {"nops": 2, "ntx": 1, "nops2": 1}, {"nops": 3, "ntx": 2, "nops2": 1}, quick_vs=(0, 4))
 CHECKS["C10"]["bounds"] += "; " + PROG_BOUNDS
@@ -120,6 +142,8 @@ CRASH_BOUNDS = ("committed prefix state S (2 pages + 1 symbolic transaction), on
                 "(alloc, overwrite, partial write, free, Flush, CheckpointWAL, SetRoot; commit or rollback), crash at every index of the recorded I/O log, "
                 "loss patterns over the writes since the last completed sync: all kept / all lost / exactly one lost / exactly one kept (thorough: every subset when <= 4 writes), "
                 "torn last write: header writes cut at 0/6/40/80/83 bytes, page writes cut in half; one fixed follow-up transaction + reopen on the recovered file")
+CHECKS["C04"]["bounds"] += "; free-list step lemmas: lists of <= 2 (thorough 3) regions with 64-bit ids < 2^54 and counts <= 2^31, generic page"
+
 prop("C01", bounds=CRASH_BOUNDS,
      outside=PROG_OUT + "; torn writes at other byte positions; real OS durability semantics (the disk model is: a completed sync makes everything issued before it durable; un-synced writes persist in any subset); "
              "rejection of a torn header that equals neither image rests on FNV not colliding (concrete headers here, so it is evaluated, not assumed)",
@@ -137,6 +161,7 @@ prop("C08",
            "nops=1 quick / 2 thorough", quick={"params": {"nops": 1}}, thorough={"params": {"nops": 2}, "max_paths": 300000, "budget": "1500s"}),
          H("txfile.VerifFault", "same on an unbounded file", "variant 3", tiers=("thorough",), thorough={"params": {"nops": 2, "variant": 3}, "max_paths": 300000, "budget": "1500s"}),
          H("txfile.VerifOpenFault", "failing I/O while creating/opening: error (never a panic), no mapping left, later open works", "existing/new x prealloc x 6 kinds x 3 ordinals"),
+         H("txfile.VerifCheckTruncate", "checkTruncate never cuts below the old state's extent, the new state's extent or the configured maximum", "all 64-bit markers/sizes < 2^40 pages"),
          H("txfile.VerifWriterSticky", "real writer: after the first failure nothing reaches the target until the reset sync; waiters released with the error; writer usable again", "3 messages (thorough: 4 + 2 preemptions)",
            thorough={"params": {"msgs": 4, "preempt": 2}}),
      ])
@@ -201,6 +226,9 @@ prop("C05", bounds=PQ_BOUNDS, outside=PQ_OUT,
            thorough={"params": {"events": 2, "nsizes": 8, "readearly": 1}, "max_paths": 400000, "budget": "1500s"}),
          H("pq.VerifQueueReopen", "close/reopen at a symbolic point keeps order and content", "2 events x 3 sizes", quick={"params": {"events": 2, "nsizes": 3}},
            thorough={"params": {"events": 2, "nsizes": 6}, "max_paths": 400000, "budget": "1500s"}),
+         H("pq.VerifQueueChunks", "a multi-page event written in 2-3 large Write calls (3000/2500/996/1992/700 bytes) after a small event: the automatic flush inside Write must not disturb anything", "3 first sizes x 5^2..5^3 chunkings",
+           thorough={"params": {"wbuf": 8192}}),
+         H("pq.VerifPqPosition", "position encoding round trip for every page id < 2^40, offset in [28,1024], event id; id ordering with wrap-around", "full-width symbolic"),
      ])
 
 prop("C06", bounds=PQ_BOUNDS + "; crash at every index of the I/O log of a flush (1-2 events) / ACK(1) / ACK(2) after a committed prefix of 2 events, loss patterns all kept / all lost / one lost / one kept",
